@@ -1,4 +1,4 @@
-import Gonuts.Lemmas.Spend
+import Gonuts.Lemmas.SpendExamples
 /-!
   C12 — P2PK locks (NUT-11).  Model: `Model.Spend` (the repaired code: F6 "always remove the matched key",
   F7 "ProofsSigAll skips non-NUT-10 secrets"); specification: `Spec.Spendable` (declarative, from NUT-11).
@@ -7,24 +7,8 @@ import Gonuts.Lemmas.Spend
   end as regression examples that are now rejected.
 -/
 namespace Gonuts.Props.C12
-open Gonuts.Model.Spend Gonuts.Spec.Spendable Gonuts.Lemmas.Spend
+open Gonuts.Model.Spend Gonuts.Spec.Spendable Gonuts.Lemmas.Spend Gonuts.Lemmas.SpendExamples.C12
 
-/-! ## concrete values for the non-vacuity examples
-  keys 1 ("K1"), 2 ("K2"), 3 ("K3"); `sign k m = 100*k + m`; a signature verifies exactly for its own (key, digest);
-  additionally 912 is a SECOND signature string of key 2 on digest 7 (another nonce). -/
-def xSign : Key → Msg → Sig := fun k m => 100 * k + m
-def xValid : Sig → Key → Msg → Bool := fun (s k m : Nat) => s == 100 * k + m || (s == 912 && k == 2 && m == 7)
-def xEnv : Env where
-  valid := xValid
-  parseKey := fun s => if s = "K1" then some 1 else if s = "K2" then some 2 else if s = "K3" then some 3 else none
-  sha256hex := fun _ => ""
-  now := 1000
-theorem xSign_valid (k : Key) (m : Msg) : xEnv.valid (xSign k m) k m = true := by simp [xEnv, xValid, xSign]
-theorem xValid_unique_aux (s k k' m : Nat) (h1 : xValid s k m = true) (h2 : xValid s k' m = true) : k = k' := by
-  simp [xValid] at h1 h2
-  rcases h1 with h1 | ⟨⟨h1, h1'⟩, h1''⟩ <;> rcases h2 with h2 | ⟨⟨h2, h2'⟩, h2''⟩ <;> omega
-theorem xValid_unique (m : Msg) (keys : List Key) : UniqueSigner xValid m keys :=
-  fun s k k' _ _ h1 h2 => xValid_unique_aux s k k' m h1 h2
 /-- lock key K1, co-signers K2 K3, threshold 2, SIG_INPUTS, future locktime, refund key K3 -/
 def xSecret : Secret :=
   { kind := .p2pk, data := "K1", tags := [["sigflag", "SIG_INPUTS"], ["n_sigs", "2"], ["pubkeys", "K2", "K3"], ["locktime", "5000"], ["refund", "K3"]] }
@@ -91,6 +75,14 @@ example : Assigned xValid 7 [xSign 2 7, 912, xSign 3 7] [1, 2, 3] 2 :=
 
 example : UniqueSigner xValid 7 [1, 2, 3] ∧ canSign xValid 7 [xSign 2 7, 912, xSign 3 7] [1, 2, 3] 2 = true :=
   ⟨xValid_unique _ _, by decide⟩
+
+/-- The hypothesis of the completeness direction is NEEDED for a first-fit loop: with a signature (30) that verifies under BOTH
+    listed keys and one (31) that verifies only under the first, two distinct positions did sign (30 ↦ key 2, 31 ↦ key 1), yet
+    first-fit gives key 1 to signature 30 and rejects.  (With BIP-340 keys this shape does not arise: two keys that verify
+    one common signature — a point and its negation — verify exactly the same signatures.) -/
+def ambiguousValid : Sig → Key → Msg → Bool := fun (s k _ : Nat) => (s == 30 && (k == 1 || k == 2)) || (s == 31 && k == 1)
+example : hasValidSignatures ambiguousValid 7 [30, 31] 2 [1, 2] = false ∧ canSign ambiguousValid 7 [30, 31] [1, 2] 2 = true ∧
+    hasValidSignatures ambiguousValid 7 [31, 30] 2 [1, 2] = true := by decide
 
 /-- The threshold 1 (refund rule) needs no hypothesis at all. -/
 theorem hasValidSignatures_one_iff (valid : Sig → Key → Msg → Bool) (m : Msg) (sigs : List Sig) (keys : List Key) :
